@@ -136,3 +136,19 @@ func (e *Engine) refRun(heights []int, seed int) []ExtraResult {
 	}
 	return rs
 }
+
+// dilRefRun: independent specification-level Dilithium (plain polynomial arithmetic) against the library: keys,
+// deterministic signatures, sign->verify, Seal/Open/Extract framing, re-signing; time-boxed.
+func (e *Engine) dilRefRun(seconds, keys, seed int) []ExtraResult {
+	t0 := time.Now()
+	os.Setenv("VERIF_SEED", fmt.Sprint(seed))
+	os.Setenv("VERIF_DIL_SECONDS", fmt.Sprint(seconds))
+	os.Setenv("VERIF_DIL_KEYS", fmt.Sprint(keys))
+	out, err := e.runOverlayTest("dilithium", map[string]string{"dilithium/zz_verif_ref_test.go": readHarness("dilithium/ref_test.go.txt")}, "TestVerifDilithiumRefRun", seconds+600)
+	bound := fmt.Sprintf("%d VERIF_SEED-derived 48-byte seeds, messages of lengths 0,1,7,32,33,135,136,137,200,1000,5000 in rotation for %d s of wall time; compared byte for byte with an independent specification-level implementation (schoolbook arithmetic mod q)", keys, seconds)
+	rs := parseBounded(out, bound, time.Since(t0).Seconds())
+	if len(rs) != 1 {
+		rs = append(rs, ExtraResult{Name: "dilithium-reference", Backend: "bounded", Bounded: true, OK: false, Detail: fmt.Sprintf("reference run reported %d results (err=%v): %s", len(rs), err, tailStr(out, 800))})
+	}
+	return rs
+}
